@@ -346,6 +346,17 @@ def _digest(res, run, m):
                 rfn = rfn or _fn_of_line(m, sp["line_start"])
             if not hasattr(res, "rejected"):
                 res.rejected = []
+            if rfn is None:
+                # a copied type definition the verifier refuses (e.g. a field whose type changed): every function under
+                # contract that comes from the same source file works on that type
+                srcf = None
+                for sp in spans:
+                    e_ = idx.get(sp["line_start"])
+                    if e_ and e_.get("src"):
+                        srcf = srcf or e_["src"][0]
+                for f in m["functions"]:
+                    if srcf and f.get("source") == srcf and not f["id"].startswith("item:"):
+                        res.rejected.append((f["id"], d["message"]))
             res.rejected.append((rfn, d["message"]))
             continue
         # semantic: find the obligation
